@@ -244,9 +244,20 @@ def force_oracle(case, steps):
     """Forcing marks exactly the named tasks and everything downstream; each forced task runs again
     exactly once; delete_data removes exactly their results (all recomputed from observed edges)."""
     chains = []          # per chain: dict(tasks={name: obs}, down={canon: set(canon)}, group)
-    forced = {}          # (group, slug#key) -> True once forced in this process
+    forced = {}          # (group, slug#key) -> True while marked; 'unknown' after a request that failed part-way
     pending = set()      # forced and not yet re-run
     group = 0
+
+    def consume(groups, runs, ok):
+        # a successful run consumes the mark of the object that ran; after a failed request it is not known which of
+        # the runs succeeded
+        for r in set(runs):
+            for g in groups:
+                if (g, r) in forced:
+                    if ok:
+                        del forced[(g, r)]
+                    else:
+                        forced[(g, r)] = 'unknown'
     for k, s in enumerate(steps):
         op = s['op']
         kind = op['op']
@@ -301,6 +312,11 @@ def force_oracle(case, steps):
                             return f'step {k}: MultiChain.force(..., delete_data=True) left {path} in place'
             for i in all_ids:
                 forced[i] = True
+            if op['recompute']:
+                consume({g for g, _ in all_ids}, s['runs'], s['out'] != 'error')
+                if s['out'] == 'error':
+                    for i in all_ids:
+                        forced[i] = 'unknown'
             if op['recompute'] and s['out'] != 'error':
                 pending -= all_ids
                 groups = {g for g, _ in all_ids}
@@ -341,6 +357,11 @@ def force_oracle(case, steps):
             for i in ids:
                 forced[i] = True
             if op['recompute']:
+                consume({ch['group']}, s['runs'], s['out'] != 'error')
+                if s['out'] == 'error':
+                    for i in ids:
+                        forced[i] = 'unknown'
+            if op['recompute']:
                 want = sorted(i[1] for i in ids)
                 if any(s['runs'].count(w) != 1 for w in want) or len(set(s['runs'])) != len(s['runs']):
                     return (f'step {k}: force({op["names"]}, recompute=True) ran {sorted(s["runs"])}, the named tasks and '
@@ -360,12 +381,15 @@ def force_oracle(case, steps):
                         return f'step {k}: delete_data left {path} in place'
         elif kind == 'flags' and s['out'] != 'error':
             for n, f, h in s['out'][1]['flags']:
+                if forced.get(ident(n)) == 'unknown':
+                    continue
                 want = ident(n) in forced
                 if f != want:
                     return f'step {k}: is_forced of {n} is {f}, expected {want} (forced so far: {sorted(i[1] for i in forced if i[0] == ch["group"])})'
         elif kind == 'value':
             me = ident(op['name'])
             ran = [r for r in s['runs']]
+            consume({ch['group']}, ran, s['out'] != 'error')
             if me in pending:
                 if ran.count(me[1]) != 1:
                     return f'step {k}: forced task {op["name"]} ran {ran.count(me[1])} times on its next request (runs: {ran})'
